@@ -68,9 +68,33 @@ _ENV = os.environ.copy()
 _ENV['PYTHONPATH'] = ':'.join(sys.path)
 
 
+class _IdentityKey:
+    """Cache key that stands for one particular object."""
+
+    __slots__ = ('obj',)
+
+    def __init__(self, obj):
+        self.obj = obj
+
+    def __hash__(self):
+        return id(self.obj)
+
+    def __eq__(self, other):
+        return self.obj is other.obj
+
+
 @functools.lru_cache()
+def _pickle_by_identity(key):
+    return pickle.dumps(key.obj, -1)
+
+
 def _pickle_memoized(schema):
-    return pickle.dumps(schema, -1)
+    # Memoize by identity, like the state diffing below: configuration maps
+    # that compare equal may still differ (composite config values compare
+    # by their exclusive fields only), and sending the pickle of an older,
+    # "equal" map leaves the worker with settings the server thinks it has
+    # replaced.  (The key keeps the object alive, so its id stays its own.)
+    return _pickle_by_identity(_IdentityKey(schema))
 
 
 class BaseWorker:
